@@ -97,8 +97,10 @@ PROPS = {
         theorems=['C06_authorised', 'C06_seq_plus_one', 'C06_seq_unchanged', 'C06_seq_monotone', 'C06_no_replay', 'C06_seq_counts',
                   'C07_handler_unreachable', 'C07_cosmos_lane', 'fact_nonce_flag_used', 'fact_ante_order', 'fact_ante_chain', 'fact_disabled_list'],
         engines=[dict(name='block', test='TestEngineBlock', quick=500, thorough=6000, thorough_seeds=3),
-                 dict(name='ante', test='TestEngineAnte', quick=250, thorough=3000, thorough_seeds=2)],
-        rule=BLOCK_RULE, assumptions=BLOCK_ASSUME + ['Cosmos-lane signature verification is the SDK decorator (trusted); only its sequence effect is modelled'],
+                 dict(name='ante', test='TestEngineAnte', quick=250, thorough=3000, thorough_seeds=2),
+                 dict(name='crypto', test='TestEngineCrypto', quick=600, thorough=6000, thorough_seeds=2, no_model=True)],
+        rule=BLOCK_RULE + '; E-crypto (oracle C06-signed-cosmos-tx-replayable only; its correspondence is judged by C19): for every real sign document, the signature and the EIP-712 rendering of the amino and of the DIRECT-mode protobuf document must not stand for the same body at the next sequence, the next account number, another chain epoch or revision',
+        assumptions=BLOCK_ASSUME + ['Cosmos-lane signature verification is the SDK decorator (trusted); only its sequence effect is modelled; that an eth_secp256k1 signature binds sequence, account number and chain id in both sign modes is observed on the real VerifySignature (E-crypto) and is C19 for the rest'],
     ),
     'C13': dict(
         lean_modules=['Model.Block', 'Properties.C05', 'Properties.C06', 'Properties.C13', 'Facts.Block'],
@@ -225,7 +227,7 @@ PROPS['C19'] = dict(
 PROPS['C20'] = dict(
     lean_modules=['Model.EventSys', 'Model.Block', 'Model.FeeMarket', 'Properties.C06', 'Properties.C09', 'Properties.C13', 'Model.LogFilter', 'Properties.C20', 'Properties.C20Conc', 'Properties.C20Filter', 'Facts.EventSys', 'Facts.C09', 'Facts.Panics'],
     facts=['*'],
-    theorems=['C20_rejected_is_noop', 'C20_dropped_is_noop', 'C20_isolation', 'C20_isolation_replace', 'runItems_append',
+    theorems=['C20_rejected_is_noop', 'C20_ante_panic_charges_block_gas_only', 'C20_dropped_is_noop', 'C20_isolation', 'C20_isolation_replace', 'runItems_append',
               'C09_total', 'C09_total_no_divzero', 'C09_zero_target_keeps', 'C13_endBlock_total', 'C13_inv_block',
               'C20_no_send_on_closed', 'inv_step', 'inv_run', 'C20_original_crashes', 'C20_original_drops', 'C20_lock_needed', 'C20_index_needed',
               'C20_filter_total', 'C20_filterLogs_total', 'C20_guard_needed', 'topicLoop_total', 'fact_filterlogs_guards', 'fact_basefee_guards', 'fact_maxgas_guard', 'fact_block_panic_sites', 'fact_consume_locks_across_send', 'fact_install_shape', 'fact_uninstall_shape', 'fact_join_indexes'],
